@@ -459,4 +459,232 @@ theorem quiescent_cases (c : Cfg) (hw : WF c) (s : St) (hA : InvA c s) (hW : Inv
            have := hA.sdone (by simp [hse, SPc.closedRing])
            rw [this] at hl2; cases hl2)
 
+/-! ## Reachable states, schedules, fair round-robin -/
+
+/-- all three invariants -/
+structure Inv (c : Cfg) (s : St) : Prop where
+  a : InvA c s
+  w : InvW s
+  k : InvK s
+
+theorem inv_init (c : Cfg) (s : St) (h : Init c s) : Inv c s :=
+  ⟨invA_init c s h, invW_init c s h, invK_init c s h⟩
+
+theorem inv_step (c : Cfg) (hw : WF c) (s s' : St) (l : Label) (hi : Inv c s) (h : step c s l = some s') :
+    Inv c s' := by
+  cases l with
+  | th t k =>
+    exact ⟨invA_step c hw s s' t k hi.a h, invW_step c hw s s' t k hi.w h, invK_step c hw s s' t k hi.a hi.k h⟩
+  | env e =>
+    exact ⟨invA_env c hw s s' e hi.a h, invW_env c hw s s' e hi.w h, invK_env c hw s s' e hi.k h⟩
+
+theorem inv_run (c : Cfg) (hw : WF c) (s : St) (sched : List Label) (hi : Inv c s) : Inv c (run c s sched) := by
+  induction sched generalizing s with
+  | nil => exact hi
+  | cons l ls ih =>
+    simp only [run]
+    cases h : step c s l with
+    | none => exact ih s hi
+    | some s' => exact ih s' (inv_step c hw s s' l hi h)
+
+/-- thread steps a schedule actually takes (environment events not counted) -/
+def takenTh (c : Cfg) (s : St) : List Label → Nat
+  | [] => 0
+  | l :: ls => match step c s l with
+    | some s' => takenTh c s' ls + (match l with | .th _ _ => 1 | .env _ => 0)
+    | none => takenTh c s ls
+
+/-- **no schedule takes more thread steps than the rank**: the rank pays for every step -/
+theorem takenTh_le_rank (c : Cfg) (hw : WF c) (s : St) (sched : List Label) (hi : Inv c s) :
+    takenTh c s sched + rank c (run c s sched) ≤ rank c s := by
+  induction sched generalizing s with
+  | nil => simp [takenTh, run]
+  | cons l ls ih =>
+    simp only [takenTh, run]
+    cases h : step c s l with
+    | none => exact ih s hi
+    | some s' =>
+      have := ih s' (inv_step c hw s s' l hi h)
+      cases l with
+      | th t k =>
+        have := rank_step c hw s s' t k hi.a.swin h
+        simp only; omega
+      | env e =>
+        have := rank_env c hw s s' e h
+        simp only; omega
+
+/-- whether a thread can step does not depend on the size of the piece a socket read returns -/
+theorem tstep_isSome_k (c : Cfg) (s : St) (t : Tid) (k k' : Nat) :
+    (tstep c s t k).isSome = (tstep c s t k').isSome := by
+  cases t with
+  | recv =>
+    simp only [tstep, Option.isSome_map]
+    cases hpc : s.recv <;> simp only [rstep]
+    case read =>
+      by_cases h1 : s.sh.sock ≠ .open ∨ s.sh.timeout = true
+      · simp [h1]
+      · by_cases h2 : s.sh.wire = 0 <;> simp [h1, h2]
+  | _ => rfl
+
+theorem ks_length_step (c : Cfg) (s s' : St) (l : Label) (h : step c s l = some s') :
+    s'.ks.length = s.ks.length ∧ s'.ws.length = s.ws.length := by
+  cases l with
+  | th t k =>
+    simp only [step] at h
+    cases t with
+    | recv => simp only [tstep] at h; cases hr : rstep c s.sh k s.recv <;> simp [hr] at h; subst h; simp
+    | send => simp only [tstep] at h; cases hr : sstep c s.sh s.send <;> simp [hr] at h; subst h; simp
+    | proc => simp only [tstep] at h; cases hr : pstep c s.sh s.proc <;> simp [hr] at h; subst h; simp
+    | k i =>
+      simp only [tstep] at h
+      cases hk : s.ks[i]? with
+      | none => simp [hk] at h
+      | some pc => cases hr : kstep c s.sh (.k i) pc <;> simp [hk, hr] at h; subst h; simp
+    | w i =>
+      simp only [tstep] at h
+      cases hk : s.ws[i]? with
+      | none => simp [hk] at h
+      | some w => cases hr : wstep c s.sh (.w i) w <;> simp [hk, hr] at h; subst h; simp
+  | env e =>
+    simp only [step] at h
+    cases e with
+    | peerClose => simp only [estep] at h; by_cases h1 : s.sh.sock = .open <;> simp [h1] at h; subst h; simp
+    | kaExpire =>
+      simp only [estep] at h
+      by_cases h1 : s.recv = .read ∧ s.sh.sock = .open
+      · rw [if_pos h1] at h; injection h with h; subst h; simp
+      · rw [if_neg h1] at h; cases h
+    | peerReads b => simp [estep] at h; subst h; simp
+    | extBlock b => simp [estep] at h; subst h; simp
+    | serverClose i =>
+      simp only [estep] at h
+      cases hk : s.ks[i]? with
+      | none => simp [hk] at h
+      | some pc => cases pc <;> simp [hk] at h; subst h; simp
+    | preClose =>
+      simp only [estep] at h
+      cases hc : s.sh.outR.close c <;> simp [hc] at h
+      subst h; simp
+
+/-- a thread that is not listed in `tids` does not exist and cannot step -/
+theorem en_of_not_mem (c : Cfg) (s : St) (t : Tid) (h : t ∉ tids s) : en c s t = false := by
+  cases t with
+  | recv => simp [tids] at h
+  | proc => simp [tids] at h
+  | send => simp [tids] at h
+  | k i =>
+    have : ¬ i < s.ks.length := by
+      intro hlt; apply h; simp [tids]; exact hlt
+    simp [en, tstep, List.getElem?_eq_none (Nat.le_of_not_lt this)]
+  | w i =>
+    have : ¬ i < s.ws.length := by
+      intro hlt; apply h; simp [tids]; exact hlt
+    simp [en, tstep, List.getElem?_eq_none (Nat.le_of_not_lt this)]
+
+theorem quiescent_iff (c : Cfg) (s : St) : quiescent c s = true ↔ ∀ t, en c s t = false := by
+  constructor
+  · intro hq t
+    by_cases hm : t ∈ tids s
+    · simp [quiescent, List.all_eq_true] at hq
+      exact hq t hm
+    · exact en_of_not_mem c s t hm
+  · intro h
+    simp [quiescent, List.all_eq_true]
+    intro t _; exact h t
+
+theorem run_append (c : Cfg) (s : St) (a b : List Label) : run c s (a ++ b) = run c (run c s a) b := by
+  induction a generalizing s with
+  | nil => rfl
+  | cons l ls ih =>
+    simp only [List.cons_append, run]
+    cases h : step c s l with
+    | none => exact ih s
+    | some s' => exact ih s'
+
+/-- a turn for every listed thread takes at least one step if one of them can step -/
+theorem turns_take (c : Cfg) (s : St) (r : Nat) (ts : List Tid) (h : ∃ t, t ∈ ts ∧ en c s t = true) :
+    1 ≤ takenTh c s (ts.map fun t => .th t r) := by
+  induction ts with
+  | nil => obtain ⟨t, hm, _⟩ := h; cases hm
+  | cons t0 rest ih =>
+    simp only [List.map_cons, takenTh]
+    cases hs : step c s (.th t0 r) with
+    | some s' => simp only; omega
+    | none =>
+      simp only
+      apply ih
+      obtain ⟨t, hm, he⟩ := h
+      rcases List.mem_cons.mp hm with rfl | hm'
+      · exfalso
+        simp only [step] at hs
+        have := tstep_isSome_k c s t r 1
+        rw [hs] at this
+        simp [en] at he
+        rw [he] at this; cases this
+      · exact ⟨t, hm', he⟩
+
+theorem rank_pos_of_enabled (c : Cfg) (hw : WF c) (s : St) (hi : Inv c s) (t : Tid) (h : en c s t = true) :
+    0 < rank c s := by
+  simp only [en] at h
+  cases hs : tstep c s t 1 with
+  | none => rw [hs] at h; cases h
+  | some s' => have := rank_step c hw s s' t 1 hi.a.swin hs; omega
+
+theorem round_spec (c : Cfg) (hw : WF c) (s : St) (hi : Inv c s) (hq : quiescent c s = false) :
+    Inv c (round c s) ∧ rank c (round c s) + 1 ≤ rank c s := by
+  refine ⟨inv_run c hw s _ hi, ?_⟩
+  have h1 : ∃ t, t ∈ tids s ∧ en c s t = true := by
+    simp [quiescent] at hq
+    obtain ⟨t, hm, he⟩ := hq
+    exact ⟨t, hm, he⟩
+  have h2 := turns_take c s c.rblock (tids s) h1
+  have h3 := takenTh_le_rank c hw s ((tids s).map fun t => .th t c.rblock) hi
+  simp only [round]
+  omega
+
+/-- **fair round-robin reaches a state in which nothing can run within `rank` rounds** -/
+theorem drain_quiescent (c : Cfg) (hw : WF c) (n : Nat) (s : St) (hi : Inv c s) (hn : rank c s ≤ n) :
+    quiescent c (drain c n s) = true := by
+  induction n generalizing s with
+  | zero =>
+    simp only [drain]
+    cases hq : quiescent c s with
+    | true => rfl
+    | false =>
+      exfalso
+      simp [quiescent] at hq
+      obtain ⟨t, _, he⟩ := hq
+      have := rank_pos_of_enabled c hw s hi t he
+      omega
+  | succ n ih =>
+    simp only [drain]
+    cases hq : quiescent c s with
+    | true => simp [hq]
+    | false =>
+      simp
+      obtain ⟨h1, h2⟩ := round_spec c hw s hi hq
+      exact ih (round c s) h1 (by omega)
+
+/-- the round-robin is a schedule of thread steps: what it reaches is reachable -/
+theorem drain_is_run (c : Cfg) (n : Nat) (s : St) :
+    ∃ sched, drain c n s = run c s sched ∧ ∀ l, l ∈ sched → ∃ t k, l = .th t k := by
+  induction n generalizing s with
+  | zero => exact ⟨[], rfl, fun l hl => by cases hl⟩
+  | succ n ih =>
+    simp only [drain]
+    cases hq : quiescent c s with
+    | true => exact ⟨[], by simp [run], fun l hl => by cases hl⟩
+    | false =>
+      obtain ⟨sched, h1, h2⟩ := ih (round c s)
+      refine ⟨((tids s).map fun t => .th t c.rblock) ++ sched, ?_, ?_⟩
+      · simp only [Bool.false_eq_true, if_false, run_append]; exact h1
+      · intro l hl
+        rcases List.mem_append.mp hl with hl | hl
+        · simp at hl; obtain ⟨t, _, rfl⟩ := hl; exact ⟨t, _, rfl⟩
+        · exact h2 l hl
+
+theorem inv_drain (c : Cfg) (hw : WF c) (n : Nat) (s : St) (hi : Inv c s) : Inv c (drain c n s) := by
+  obtain ⟨sched, h, _⟩ := drain_is_run c n s
+  rw [h]; exact inv_run c hw s sched hi
+
 end Mqtt.Proofs.Lifecycle
